@@ -381,6 +381,39 @@ def check_triples_case(case):
     return {'fails': fails, 'n': len(triples), 'keys': set((logic, t) for t in triples)}
 
 
+def check_rewrap_case(case):
+    """case = (logic, [(t1, t2)]) with the same operator at the root: a formula object that has been hashed and used as a
+    key, and whose operands are then replaced through the public wrap_subformulas(operands, Formula), must be
+    indistinguishable from a formula built with those operands (==, hash, one key)"""
+    logic, pairs = case
+    L = lang(logic)
+    fails = []
+    for a, b in pairs:
+        def bad(kind, what):
+            fails.append((kind, '%s [%s: %s re-wrapped with the operands of %s]' % (what, logic, a, b), {'logic': logic}, (logic, [(a, b)])))
+        f = trees.build(L, a)
+        g = trees.build(L, b)
+        hash(f)
+        box = {f: 1}
+        outer = L.Not(f) if hasattr(L, 'Not') and logic == 'PL' else None
+        if outer is not None:
+            hash(outer)
+        r = call(f.wrap_subformulas, [trees.build(L, c) for c in b[1:]], L.Formula)
+        if r[0] != 'ok':
+            continue        # (the operands are not acceptable to this node: not this leg's business)
+        del box
+        if not (f == g and g == f):
+            bad('rewrap:eq', 'the re-wrapped formula %s != %s' % (f, g))
+            continue
+        if hash(f) != hash(g):
+            bad('__hash__:ensures:after_rewrap', 'equal formulas %s hash differently after wrap_subformulas' % (g,))
+        if g not in {f} or f not in {g} or len({f, g}) != 1:
+            bad('__hash__:one_key:after_rewrap', '%s and its equal are two keys after wrap_subformulas' % (g,))
+        if outer is not None and (hash(outer) != hash(L.Not(g)) or not outer == L.Not(g)):
+            bad('__hash__:ensures:after_rewrap', 'a formula containing the re-wrapped node hashes differently from its equal')
+    return {'fails': fails, 'n': len(pairs), 'keys': set((logic, p) for p in pairs)}
+
+
 _PARSERS = {}
 
 
